@@ -2129,7 +2129,7 @@ static void randomStep(Ctx& c)
       {
          double x = T[i].w;
          Fn f = T[i].f;
-         if(isRisky(f)) x = (c.focus == (int)f) ? 6.0 : 0.0;
+         if(isRisky(f)) x = (c.focus == (int)f) ? (m > 0 ? 30.0 : 0.0) : 0.0;
          bool adds = f == F_addRowReal || f == F_addColReal || f == F_addRowRational || f == F_addColRational;
          if(adds && (n < 2 || m < 2)) x *= 4.0;         // build something first
          if(f == F_optimize && (n == 0 || m == 0)) x *= 0.15;
